@@ -1,11 +1,15 @@
 /-
-"MiniPy", stage 1 — the fragment of Python on which C01 ("accepted programs do not go wrong") is *proved*.
+"MiniPy" — the fragment of Python on which C01 ("accepted programs do not go wrong") is *proved*
+(stage 1: classes, Optional/Union, isinstance/None narrowing, if/while; stage 2: truthiness of Optional[class]
+locals, `<`, `-`, break/continue, un-annotated first assignments; stage 3: multiple inheritance — the MRO is part
+of the program term, taken from Python's `__mro__`).
 Hand-written, import-free, executable.  This file: syntax, the class table, values, and the dynamic side —
 a big-step fuel interpreter `evalE / evalS` with CPython's behaviour on the fragment:
 
   * attribute read  `e.f`          instance dictionary only (class bodies carry annotations, no values):
                                    missing → AttributeError; receiver `None`/int/str/bool → AttributeError
-  * method call     `e.m(a…)`      `type(e).__mro__` lookup (AttributeError when absent), *then* the arguments
+  * method call     `e.m(a…)`      `type(e).__mro__` lookup — C3 order under multiple inheritance — (AttributeError
+                                   when absent), *then* the arguments
                                    left to right, then the arity check (TypeError)
   * function call   `f(a…)`        arguments left to right, arity check (TypeError)
   * constructor     `C(a…)`        arguments, arity check of `C.__init__` (TypeError), then the body of
